@@ -260,7 +260,6 @@ func rollDoubleCrossWithBudget(src *rand.PCGSource, addLine IntType, pool IntTyp
 
 			if reachAddRound {
 				addCount += 1
-				maxDice = 10
 			}
 
 			if isShowDetails {
@@ -272,6 +271,10 @@ func rollDoubleCrossWithBudget(src *rand.PCGSource, addLine IntType, pool IntTyp
 			}
 		}
 
+		if addCount > 0 {
+			// 暴击轮固定记10点。原先在循环内逐骰改写 maxDice，面数大于10时结果依赖骰子出现的顺序
+			maxDice = 10
+		}
 		resultDice += maxDice
 		allRollCount += addCount
 
